@@ -693,6 +693,13 @@ theorem step_preserves_HasBase {r : Registry} (h : RegInv r) (hb : HasBase r) {o
     rcases addCategory_spec lg r a with ⟨e, he⟩ | ⟨c, info, _, _, _, he⟩
     · rw [he]; exact hb
     · rw [he]; exact hb
+  | addCategoryN a0 n1 n2 n3 =>
+    have : (addCategory lg r (inheritFlags r a0 n1 n2 n3)).1 = (step lg r (.addCategoryN a0 n1 n2 n3)).1 := by
+      simp only [step]; cases addCategory lg r (inheritFlags r a0 n1 n2 n3) with | mk r1 o => cases o <;> rfl
+    rw [← this]
+    rcases addCategory_spec lg r (inheritFlags r a0 n1 n2 n3) with ⟨e, he⟩ | ⟨c, info, _, _, _, he⟩
+    · rw [he]; exact hb
+    · rw [he]; exact hb
 
 /-- with a base unit in every type the invariant gives the identity-base clause at full strength -/
 theorem fullInv_of_hasBase {r : Registry} (h : RegInv r) (hb : HasBase r) : FullInv r := by
@@ -719,6 +726,11 @@ theorem step_inv {r : Registry} (h : RegInv r) (op : RegOp) : RegInv (step lg r 
     simp only [step]
     cases hs : addCategory lg r a with
     | mk r1 o => rw [hs] at this; cases o <;> exact this
+  | addCategoryN a0 n1 n2 n3 =>
+    have := addCategory_inv (lg := lg) h (inheritFlags r a0 n1 n2 n3)
+    simp only [step]
+    cases hs : addCategory lg r (inheritFlags r a0 n1 n2 n3) with
+    | mk r1 o => rw [hs] at this; cases o <;> exact this
 
 /-- a rejected call leaves a well-formed registry as it was (restated as `rejected_step_id` in Props/C14) -/
 theorem rejected_id {r r' : Registry} (h : RegInv r) {op : RegOp} {e : ErrKind}
@@ -741,6 +753,58 @@ theorem rejected_id {r r' : Registry} (h : RegInv r) {op : RegOp} {e : ErrKind}
     rcases addCategory_spec lg r a with ⟨e', he⟩ | ⟨c, info, _, _, _, he⟩
     · rw [he] at hs; cases hs; rfl
     · rw [he] at hs; cases hs
+  | addCategoryN a0 n1 n2 n3 =>
+    simp only [step] at hs
+    rcases addCategory_spec lg r (inheritFlags r a0 n1 n2 n3) with ⟨e', he⟩ | ⟨c, info, _, _, _, he⟩
+    · rw [he] at hs; cases hs; rfl
+    · rw [he] at hs; cases hs
+
+/-! ### the exclusivity flags of an accepted category are the ones `AddCategory` was (effectively) called with -/
+
+theorem inheritFrom_flags {r : Registry} {a a1 : CatArgs} (h : inheritFrom r a = .ok a1) :
+    a1.minExcl = a.minExcl ∧ a1.maxExcl = a.maxExcl ∧ a1.caption = a.caption := by
+  unfold inheritFrom at h
+  split at h
+  · split at h
+    · cases h
+    · cases h; exact ⟨rfl, rfl, rfl⟩
+  · cases h; exact ⟨rfl, rfl, rfl⟩
+
+theorem buildInfo_flags {lg : List (Sym × Sym)} {r : Registry} {c qt : Sym} {a : CatArgs} {info : CatRow}
+    (h : buildInfo lg r c qt a = .ok info) : info.minExcl = a.minExcl ∧ info.maxExcl = a.maxExcl := by
+  unfold buildInfo at h
+  split at h
+  · cases h
+  · split at h
+    · cases h
+    · split at h
+      · cases h
+      · cases h; exact ⟨rfl, rfl⟩
+
+theorem addCategory_flags {lg : List (Sym × Sym)} {r r' : Registry} {a : CatArgs} {info : CatRow}
+    (h : addCategory lg r a = (r', .ok info)) : info.minExcl = a.minExcl ∧ info.maxExcl = a.maxExcl := by
+  unfold addCategory at h
+  split at h
+  · cases h
+  · cases h
+  · split at h
+    · cases h
+    · split at h
+      · cases h
+      · split at h
+        · cases h
+        · split at h
+          · cases h
+          · rename_i a1 ha1
+            split at h
+            · cases h
+            · split at h
+              · cases h
+              · rename_i info' hb
+                cases h
+                obtain ⟨f1, f2, _⟩ := inheritFrom_flags ha1
+                obtain ⟨g1, g2⟩ := buildInfo_flags hb
+                exact ⟨g1.trans f1, g2.trans f2⟩
 
 end
 
